@@ -22,7 +22,7 @@ import numpy as np
 from harness import common, finder_lib as FL, synth
 
 LEVEL = "model_checking"
-KINDS = ["sparse", "blends", "tiny", "many", "edge", "nanregion", "coincident", "empty", "psfmap"]
+KINDS = ["sparse", "blends", "tiny", "many", "edge", "nanregion", "coincident", "empty", "psfmap", "far"]
 
 
 def observe(args):
